@@ -1,4 +1,7 @@
 import Driver.C04
+import Driver.C19W
+import Driver.C11_Tags
+import Driver.C09Floats
 import Driver.C15_6800
 import Driver.C03
 import Driver.C17
@@ -29,6 +32,9 @@ partial def loop (h : IO.FS.Stream) (out : IO.FS.Stream) (f : String → String)
   loop h out f
 
 def modes : List (String × (String → String)) := [
+  ("c19w", C19W.handle),
+  ("c11tag", C11Tags.handle),
+  ("c09f", C09Floats.handle),
   ("c06fam", C06.handleFam),
   ("c15_68", C15_6800.handle),
   ("c03", C03.handle),
